@@ -106,7 +106,7 @@ class C19(Prop):
         # the same kind of run with every category's comparisons in a dedicated worker process, the categories' generators
         # consumed interleaved (each category has its own worker; one category's run must not disturb another's)
         base = [c for c in cases if len(self.expected_groups(c)) >= 2 and not c['keep'] and len(c['recs']) >= 3]
-        for c in base[:6 if tier == 'quick' else 60]:
+        for c in base[:20 if tier == "quick" else 80]:
             d = dict(c, dedicated=True)
             groups = self.expected_groups(d)
             live = sorted(k for k in groups if k not in d['failing'])
@@ -116,6 +116,21 @@ class C19(Prop):
                     if left[k]:
                         order.append(k)
                         left[k] -= 1
+            d['order'] = order
+            cases.append(d)
+        # fixed: categories of unequal size, so one category's run ends (and lets go of its worker) while the others still have
+        # recordings to replay
+        for sizes in ([1, 3], [3, 1], [1, 2, 4]):
+            cats = ['Op', 'OpB', 'O'][:len(sizes)]
+            recs = [[c, 10 * i + j, False] for i, (c, n) in enumerate(zip(cats, sizes)) for j in range(n)]
+            d = {'cassette': 'memory', 'recs': recs, 'explicit': None, 'categories': list(cats), 'skip_incomplete': True,
+                 'failing': [], 'keep': False, 'resave': [], 'dedicated': True}
+            order, left = [], {c: n + 1 for c, n in zip(cats, sizes)}
+            while any(left.values()):
+                for c in cats:
+                    if left[c]:
+                        order.append(c)
+                        left[c] -= 1
             d['order'] = order
             cases.append(d)
         return cases
